@@ -194,6 +194,12 @@ def execute(sc):
                 else:
                     ctl.log('CallEnd', i=i, kind='other', tag=[0, '', 0], exctype='value:' + type(v).__name__)
 
+        async def chained(cs, fn):
+            await caller(cs, fn)
+            for k in range(cs.get('chain', 0)):
+                # an immediate retry with the same argument, in the same task step as the answer
+                await caller(dict(cs, i=cs['i'] * 100 + k + 1, chain=0), fn)
+
         def do_cancel(i):
             t = tasks.get(i)
             if t is not None and not t.done():
@@ -206,7 +212,7 @@ def execute(sc):
             mine = [cs for cs in sc['calls'] if cs.get('loop', 'L1') == name]
 
             def start(cs):
-                tasks[cs['i']] = loop.create_task(caller(cs, fn))
+                tasks[cs['i']] = loop.create_task(chained(cs, fn) if cs.get('chain') else caller(cs, fn))
             sched = []
             for cs in mine:
                 sched.append((cs['at'], start, (cs,)))
